@@ -5,6 +5,7 @@ import CasbinModel.RoleGraph
 import CasbinModel.Rbac
 import CasbinModel.KeyMatch
 import CasbinModel.Sexpr
+import CasbinModel.Fs
 /-!
 # Line-protocol driver: runs the executable model on the harness' op stream.
 One op per input line, one canonical answer per output line.
@@ -192,6 +193,7 @@ def stepEnf (st : DrvState) (f : List String) : Option (DrvState × String) :=
   | ["e.delperm", perm] => some (upd st (e.deletePermission (decList perm)))
   | ["e.clear"] => some (upd st e.clearPolicy)
   | ["e.load"] => some (upd st e.loadPolicy)
+  | ["e.loadc"] => let r := e.loadPolicy; some ({ st with enf := r.1 }, match r.2 with | .err _ => "err" | x => resS x)
   | ["e.loadf", fp, fg] => some (upd st (e.loadFilteredPolicy (decList fp) (decList fg)))
   | ["e.save"] => some (upd st e.savePolicy)
   | ["e.build"] => let r := e.buildRoleLinks; some ({ st with enf := r.1 }, match r.2 with | none => "ok" | some k => "err:" ++ k.toString)
@@ -200,6 +202,20 @@ def stepEnf (st : DrvState) (f : List String) : Option (DrvState × String) :=
     let r := e.setModel st.spec.defs st.spec.store
     some ({ st with enf := r.1, tbl := st.spec.tbl }, resS r.2)
   | ["e.setadapter", kind, content, text] => some (upd st (e.setAdapter (mkAdapter kind content text)))
+  | ["e.setadapter", kind, content, text, plan] =>
+    let a := mkAdapter kind content text
+    some (upd st (e.setAdapter { a with plan := if plan == "-" then [] else (plan.splitOn ",").map faultOf }))
+  | ["fs.unlink"] =>
+    -- the policy file disappears: the file adapter's next load fails with an I/O error
+    some ({ st with enf := { e with adapter := { e.adapter with plan := [.err] } } }, "ok")
+  | ["fs.crash", old, new, k] =>
+    -- FileAdapter save under a write budget of k bytes: model of Fs.lean
+    let render (rs : List (List String)) : Bytes :=
+      (rs.flatMap (fun r => utf8Bytes (renderLine [','] "p".toList (r.map String.toList) ++ ['\n'])))
+    let oldB := render (decLists old); let newB := render (decLists new)
+    let fs : Fs := ⟨[("policy.csv", oldB)]⟩
+    let final := (saveAtomicStates fs "policy.csv" newB k.toNat!).getLast?.bind (·.read "policy.csv")
+    some (st, if final == some oldB then "old" else if final == some newB then "new" else "corrupt")
   | ["e.fault", plan] =>
     some ({ st with enf := { e with adapter := { e.adapter with plan := if plan == "-" then [] else (plan.splitOn ",").map faultOf } } }, "ok")
   | ["e.auto", what, b] =>
@@ -231,6 +247,9 @@ def stepEnf (st : DrvState) (f : List String) : Option (DrvState × String) :=
   | ["e.iroles", n, d] => some (st, encList (sortStrings (e.getImplicitRoles (unesc n) (optD d))))
   | ["e.perms", n, d] => some (st, encLists (e.getPermissionsForUser (unesc n) (optD d)))
   | ["e.iperms", n, d] => some (st, encLists (sortRules (e.getImplicitPermissions (unesc n) (optD d))))
+  | ["e.reload"] =>
+    let s := loadRecords e.store.clear e.adapter.records
+    some (st, encLists (s.allOf "p") ++ " " ++ encLists (s.allOf "g"))
   | ["e.filtered"] => some (st, boolS e.adapter.filtered)
   | ["e.events"] => some ({ st with enf := { e with log := [] } }, if e.log.isEmpty then "-" else " ".intercalate (e.log.map eventS))
   | ["e.adapter"] =>
